@@ -586,16 +586,16 @@ variable {H : Type}
 /-- `recompress_decompress` with the range hypothesis restricted to what the parser returned for
     this input -/
 theorem recompress_decompress' (est : Array Nat → List Block → R Params) (mk : Params → Pred H)
-    (verify : Bool) (d : List UInt8) (hd : d.length < 2 ^ 29)
+    (verify : Bool) (d : List UInt8)
     (hest : ∀ p, parse d = .ok p → ∀ q, est p.plain p.blocks = .ok q → EstimatorRange q)
     (r : StreamResult) (h : decompressStream est mk verify d = .ok r) :
     recompressStream mk r.plain r.corr = .ok (d.take r.size) ∧ r.size ≤ d.length := by
   obtain ⟨p, params, hdr, body, h1, h2, h3, h4, rfl⟩ := decompressStream_ok h
-  exact ⟨recompressStream_ok mk d hd p h1 params (hest p h1 _ h2) hdr h3 body h4, (write_parse d p h1).2⟩
+  exact ⟨recompressStream_ok mk d p h1 params (hest p h1 _ h2) hdr h3 body h4, (write_parse d p h1).2⟩
 
 /-- `verify_same` with the range hypothesis restricted to what the parser returned for this input -/
 theorem verify_same' (est : Array Nat → List Block → R Params) (mk : Params → Pred H)
-    (d : List UInt8) (hd : d.length < 2 ^ 29)
+    (d : List UInt8)
     (hest : ∀ p, parse d = .ok p → ∀ q, est p.plain p.blocks = .ok q → EstimatorRange q) :
     decompressStream est mk true d = decompressStream est mk false d := by
   unfold decompressStream
@@ -615,49 +615,47 @@ theorem verify_same' (est : Array Nat → List Block → R Params) (mk : Params 
         | error e => rfl
         | ok body =>
           simp only [ok_bind, if_true, Bool.false_eq_true, if_false,
-            verifyStream_ok mk d hd p hp params (hest p hp _ he) hdr hw body hb]
+            verifyStream_ok mk d p hp params (hest p hp _ he) hdr hw body hb]
 
-/-- the complete estimator is in range on whatever the parser returns (inputs below 512 MiB) -/
-theorem estimate_in_range_parsed (d : List UInt8) (hd : d.length < 2 ^ 29) (p : Parsed)
+/-- the complete estimator is in range on whatever the parser returns  -/
+theorem estimate_in_range_parsed (d : List UInt8) (p : Parsed)
     (hp : parse d = .ok p) (q : Params) (hq : Est.estimate p.plain p.blocks = .ok q) :
     EstimatorRange q := by
-  have hl := length_bytesToBits d
-  exact estimate_in_range p.plain p.blocks q (parse_valid (bytesToBits d) (by omega) p hp).1 hq
+  exact estimate_in_range p.plain p.blocks q (parse_valid_unbounded (bytesToBits d) p hp).1 hq
 
 /-- THE PUBLIC PAIR with the modelled estimator and the executable predictor family, no hypothesis
     left on either: whenever `decompress_deflate_stream` returns Ok(r) (either verify setting),
     `recompress_deflate_stream` on r's plaintext and corrections returns exactly D[..r.size] -/
-theorem public_pair_exact (verify : Bool) (d : List UInt8) (hd : d.length < 2 ^ 29) (r : StreamResult)
+theorem public_pair_exact (verify : Bool) (d : List UInt8) (r : StreamResult)
     (h : decompressStream Est.estimate Chains.pred verify d = .ok r) :
     recompressStream Chains.pred r.plain r.corr = .ok (d.take r.size) ∧ r.size ≤ d.length :=
-  recompress_decompress' Est.estimate Chains.pred verify d hd (estimate_in_range_parsed d hd) r h
+  recompress_decompress' Est.estimate Chains.pred verify d (estimate_in_range_parsed d) r h
 
 /-- … and the verify=true block changes neither Ok/Err nor the result -/
-theorem public_verify_same (d : List UInt8) (hd : d.length < 2 ^ 29) :
+theorem public_verify_same (d : List UInt8) :
     decompressStream Est.estimate Chains.pred true d = decompressStream Est.estimate Chains.pred false d :=
-  verify_same' Est.estimate Chains.pred d hd (estimate_in_range_parsed d hd)
+  verify_same' Est.estimate Chains.pred d (estimate_in_range_parsed d)
 
 /-- `decompress_bytes_chain` (Props/C02.lean) with the range hypothesis restricted to the parser's output -/
 theorem decompress_bytes_chain' (est : Array Nat → List Block → R Params) (mk : Params → Pred H)
     (hb : ∀ q, PredBounded (mk q))
-    (verify : Bool) (d : List UInt8) (hd : d.length < 2 ^ 29)
+    (verify : Bool) (d : List UInt8)
     (hest : ∀ p, parse d = .ok p → ∀ q, est p.plain p.blocks = .ok q → EstimatorRange q)
     (r : StreamResult)
-    (h : decompressStream est mk verify d = .ok r) (hsize : r.plain.size < 2 ^ 31 - 1) :
+    (h : decompressStream est mk verify d = .ok r) :
     ∃ evs bytes, encodeOps 0 r.corr = .ok evs ∧ encodeBytes r.corr = .ok bytes ∧
       decodeOps 0 (r.corr.map Op.kind) (VP8.readEvents bytes (evs.map (·.ctx))) = .ok (r.corr, 0, []) ∧
       recompressStream mk r.plain r.corr = .ok (d.take r.size) := by
-  have hrec := (recompress_decompress' est mk verify d hd hest r h).1
+  have hrec := (recompress_decompress' est mk verify d hest r h).1
   obtain ⟨p, params, hdr, body, h1, h2, h3, h4, rfl⟩ := decompressStream_ok h
-  have hl := length_bytesToBits d
-  obtain ⟨hv, hpad⟩ := parse_valid (bytesToBits d) (by omega) p h1
+  obtain ⟨hv, hpad⟩ := parse_valid_unbounded (bytesToBits d) p h1
   obtain ⟨ops, e1, _, hwf1⟩ := readParams_writeParams params
     (estimatorRange_wf params (hest p h1 _ h2)) []
   rw [h3] at e1
   simp only [Except.ok.injEq] at e1
   subst e1
-  have hwf2 := encStream_ops_wf (mk params) (hb params) p.plain p.blocks p.eofPadding hv hpad
-    hsize body h4
+  have hwf2 := encStream_ops_wf' (mk params) (hb params) p.plain p.blocks p.eofPadding hv hpad
+    (parse_tokenCountsSmall d p h1) body h4
   have hwf : ∀ o ∈ hdr ++ body, o.WF := by
     intro o ho
     rcases List.mem_append.mp ho with ho | ho
@@ -667,12 +665,12 @@ theorem decompress_bytes_chain' (est : Array Nat → List Block → R Params) (m
   exact ⟨evs, bytes, e1, e2, e4, hrec⟩
 
 /-- BYTE LEVEL, end to end, for the modelled estimator and the executable predictor family -/
-theorem public_bytes_chain (verify : Bool) (d : List UInt8) (hd : d.length < 2 ^ 29) (r : StreamResult)
-    (h : decompressStream Est.estimate Chains.pred verify d = .ok r) (hsize : r.plain.size < 2 ^ 31 - 1) :
+theorem public_bytes_chain (verify : Bool) (d : List UInt8) (r : StreamResult)
+    (h : decompressStream Est.estimate Chains.pred verify d = .ok r) :
     ∃ evs bytes, encodeOps 0 r.corr = .ok evs ∧ encodeBytes r.corr = .ok bytes ∧
       decodeOps 0 (r.corr.map Op.kind) (VP8.readEvents bytes (evs.map (·.ctx))) = .ok (r.corr, 0, []) ∧
       recompressStream Chains.pred r.plain r.corr = .ok (d.take r.size) :=
-  decompress_bytes_chain' Est.estimate Chains.pred chains_pred_bounded verify d hd
-    (estimate_in_range_parsed d hd) r h hsize
+  decompress_bytes_chain' Est.estimate Chains.pred chains_pred_bounded verify d
+    (estimate_in_range_parsed d) r h
 
 end Preflate.Proofs
